@@ -82,7 +82,7 @@ UriBool URI_FUNC(EqualsUri)(const URI_TYPE(Uri) * a,
 	}
 
 	/* absolutePath */
-	if ((a->scheme.first == NULL)&& (a->absolutePath != b->absolutePath)) {
+	if (!URI_FUNC(IsHostSet)(a) && (a->absolutePath != b->absolutePath)) {
 		return URI_FALSE;
 	}
 
